@@ -19,8 +19,8 @@ External behaviour is a parameter (`Env`): calling a type object on a value
 being assigned to.
 -/
 import TraitsVerif.Py.Val
-namespace TraitsVerif.Model
-open TraitsVerif TraitsVerif.Py
+namespace TraitsVerif.Model.Val
+open TraitsVerif TraitsVerif.Py.Value
 
 /-- Outcome of a validator: the validated value, a `TraitError`
 (`raise_trait_error`), or another exception passed through. -/
@@ -448,4 +448,4 @@ def validateTraitEnum : List (String × Nat) :=
     ("coerce", 11), ("cast", 12), ("function", 13), ("python", 14), ("adapt", 19),
     ("int", 20), ("float", 21), ("callable", 22), ("complex_number", 23) ]
 
-end TraitsVerif.Model
+end TraitsVerif.Model.Val
